@@ -86,6 +86,30 @@ def gather : Handler := fun j => do
   pure (jObj [("chunks", jArr (ts.map jTensor)), ("f", jRat F),
               ("sums", jArr (chunks.map fun c => jObj [("m", jTensor c.m), ("f", jRat c.f)]))])
 
-def handlers : List (String × Handler) := [("c19.run", run), ("c19.gather", gather)]
+def sresOf (j : Json) : Except String (SRes Rat) := do
+  match ← (← field j "status").getStr? with
+  | "ok" => pure (.ok (← strippedOf j))
+  | "zero" => pure .zero
+  | "nan" => pure .nan
+  | s => throw s!"status {s}"
+
+/-- op `c19.gatherres`: slice results with their status (finite / `check_zero` exit / nan), reduced
+    per chunk with `addRes` (the repaired `add_maybe_exponent_stripped`; `"old": true` selects the
+    unrepaired one) and gathered with `gatherRes` -/
+def gatherres : Handler := fun j => do
+  let old ← (fieldD j "old" (jBool false)).getBool?
+  let add : SRes Rat → SRes Rat → SRes Rat := if old then addResOld else addRes
+  let chunks ← (← arrOf (← field j "chunks")).mapM fun c => do
+    let ss ← (← arrOf c).mapM sresOf
+    match ss with
+    | [] => throw "empty chunk"
+    | s :: rest => pure (sumRes add s rest)
+  match gatherRes chunks with
+  | .nan => pure (jObj [("status", jStr "nan")])
+  | .zero => pure (jObj [("status", jStr "zero")])
+  | .ok ts F => pure (jObj [("status", jStr "ok"), ("chunks", jArr (ts.map jTensor)), ("f", jRat F)])
+
+def handlers : List (String × Handler) :=
+  [("c19.run", run), ("c19.gather", gather), ("c19.gatherres", gatherres)]
 
 end Cotengra.Driver.C19
